@@ -217,7 +217,7 @@ def rewrites(ctx, tmpdir):
 KINDS = list(gen.ELEMENTWISE) + ["CubaLIF", "Affine", "Linear", "Conv1d", "Conv2d", "SumPool2d", "AvgPool2d"]
 
 
-def run(ctx):
+def _run_main(ctx):
     from core import run_graph_ops
     rng = ctx.rng
     cases, obs, reqs = [], [], []
@@ -305,3 +305,11 @@ def run(ctx):
     finally:
         import shutil
         shutil.rmtree(tmpdir, ignore_errors=True)
+
+
+def run(ctx):
+    _run_main(ctx)
+    # history independence: the same call on a live graph object with a history of edits / calls and on a twin rebuilt
+    # from its public state (harness/history.py)
+    import history
+    history.run(ctx, ["file_rt", "path_rt"], {"file_rt": "the parameters read back from a graph object with a history", "path_rt": "the parameters read back (through a path) from a graph object with a history"})
